@@ -35,7 +35,7 @@ var distKinds = []string{
 	"close-open-same-object", "restart-new-object", "ipc-stop-start",
 	"meta-deleted-offline", "reset-offline", "reset-at-runtime", "auto-recover-missing-l0",
 	"app-closes-last-connection", "db-replaced-older", "db-replaced-newer",
-	"data-dir-rolled-back",
+	"data-dir-rolled-back", "db-wal-rolled-back",
 }
 
 // offline activity shapes
@@ -503,6 +503,8 @@ func (w *world) disturb(kind string) error {
 		return w.replaceDB(kind)
 	case "data-dir-rolled-back":
 		return w.rollbackDataDir()
+	case "db-wal-rolled-back":
+		return w.rollbackDBWAL()
 	}
 	return fmt.Errorf("unknown disturbance %s", kind)
 }
@@ -652,6 +654,71 @@ func (w *world) rollbackDataDir() error {
 		}
 	}
 	return nil
+}
+
+// rollbackDBWAL: the database file and its -wal (same WAL generation, frames not yet
+// checkpointed) are put back to an earlier raw copy while litestream's meta directory and
+// the replica stay at the later state; the application then writes again, up to or past
+// the place in the WAL where litestream's cursor was.
+func (w *world) rollbackDBWAL() error {
+	ctx := context.Background()
+	if err := w.LS.SyncAndWait(ctx); err != nil {
+		w.Logf("SyncAndWait before the copy err=%v", err)
+	}
+	snap := filepath.Join(w.Dir, fmt.Sprintf("dbwal-%d", len(w.shapes)))
+	if err := os.MkdirAll(snap, 0o755); err != nil {
+		return err
+	}
+	if err := sq.CopyFile(w.DBPath, filepath.Join(snap, "db")); err != nil {
+		return err
+	}
+	walKept := sq.CopyFile(w.DBPath+"-wal", filepath.Join(snap, "db-wal")) == nil
+	kSnap := w.K
+	// replication moves on in the same WAL generation
+	for i := 0; i < 1+w.rng.Intn(4); i++ {
+		if _, err := w.writeTable("t0"); err != nil {
+			return err
+		}
+		if w.rng.Intn(2) == 0 {
+			_ = w.LS.SyncAndWait(ctx)
+		}
+	}
+	if w.ackCheck("before db+wal rollback", 0) {
+		return nil
+	}
+	if err := w.closeLS(); err != nil {
+		return fmt.Errorf("close: %w", err)
+	}
+	w.CloseApp()
+	os.Remove(w.DBPath + "-wal")
+	os.Remove(w.DBPath + "-shm")
+	if err := sq.CopyFile(filepath.Join(snap, "db"), w.DBPath); err != nil {
+		return err
+	}
+	if walKept {
+		if err := sq.CopyFile(filepath.Join(snap, "db-wal"), w.DBPath+"-wal"); err != nil {
+			return err
+		}
+	}
+	w.K = kSnap
+	w.Logf("database and wal (kept=%v) rolled back to the raw copy taken at k=%d; meta directory and replica stay", walKept, kSnap)
+	if err := w.OpenApp(); err != nil {
+		return err
+	}
+	if err := w.Record(); err != nil {
+		return err
+	}
+	w.offCommits++
+	for i := w.rng.Intn(5); i > 0; i-- {
+		ok, err := w.writeTable([]string{"t2", "t0", "t1"}[w.rng.Intn(3)])
+		if err != nil {
+			return err
+		}
+		if ok {
+			w.offCommits++
+		}
+	}
+	return w.restartNewObject()
 }
 
 func copyTree(src, dst string) error {
